@@ -220,6 +220,124 @@ impl<'de, 'a> de::Deserializer<'de> for De<'a> {
     }
 }
 
+// ------------------------------------------------------------ strict (non-self-describing) reader
+/// A bincode-like reader over the flat stream the recording Serializer produced: nothing is tagged, so the value must ASK for
+/// exactly what was written - `deserialize_tuple(n)` reads n elements with no length, `deserialize_seq` reads a length first,
+/// `deserialize_u32` / `deserialize_i8` read one scalar; `deserialize_any` and every other request is an error.
+#[derive(Clone, Debug)]
+enum Flat {
+    Len(usize),
+    I8(i8),
+    U32(u32),
+}
+struct Strict<'a> {
+    toks: &'a [Flat],
+    pos: &'a std::cell::Cell<usize>,
+}
+impl<'a> Strict<'a> {
+    fn next(&self) -> Result<Flat, SErr> {
+        let p = self.pos.get();
+        self.pos.set(p + 1);
+        self.toks.get(p).cloned().ok_or_else(|| SErr("unexpected end of input".into()))
+    }
+}
+struct StrictSeq<'a> {
+    de: Strict<'a>,
+    left: usize,
+}
+impl<'de, 'a> SeqAccess<'de> for StrictSeq<'a> {
+    type Error = SErr;
+    fn next_element_seed<T: DeserializeSeed<'de>>(&mut self, seed: T) -> Result<Option<T::Value>, SErr> {
+        if self.left == 0 {
+            return Ok(None);
+        }
+        self.left -= 1;
+        seed.deserialize(Strict { toks: self.de.toks, pos: self.de.pos }).map(Some)
+    }
+    fn size_hint(&self) -> Option<usize> {
+        Some(self.left)
+    }
+}
+macro_rules! strict_reject {
+    ($($name:ident)*) => {$(
+        fn $name<V: Visitor<'de>>(self, _: V) -> Result<V::Value, SErr> {
+            Err(SErr(format!("strict reader: unsupported request {}", stringify!($name))))
+        }
+    )*}
+}
+impl<'de, 'a> de::Deserializer<'de> for Strict<'a> {
+    type Error = SErr;
+    fn deserialize_i8<V: Visitor<'de>>(self, visitor: V) -> Result<V::Value, SErr> {
+        match self.next()? {
+            Flat::I8(v) => visitor.visit_i8(v),
+            t => Err(SErr(format!("strict reader: i8 requested, stream has {:?}", t))),
+        }
+    }
+    fn deserialize_u32<V: Visitor<'de>>(self, visitor: V) -> Result<V::Value, SErr> {
+        match self.next()? {
+            Flat::U32(v) => visitor.visit_u32(v),
+            t => Err(SErr(format!("strict reader: u32 requested, stream has {:?}", t))),
+        }
+    }
+    fn deserialize_seq<V: Visitor<'de>>(self, visitor: V) -> Result<V::Value, SErr> {
+        match self.next()? {
+            Flat::Len(n) => visitor.visit_seq(StrictSeq { de: Strict { toks: self.toks, pos: self.pos }, left: n }),
+            t => Err(SErr(format!("strict reader: sequence length expected, stream has {:?}", t))),
+        }
+    }
+    fn deserialize_tuple<V: Visitor<'de>>(self, len: usize, visitor: V) -> Result<V::Value, SErr> {
+        visitor.visit_seq(StrictSeq { de: Strict { toks: self.toks, pos: self.pos }, left: len })
+    }
+    fn deserialize_tuple_struct<V: Visitor<'de>>(self, _: &'static str, len: usize, visitor: V) -> Result<V::Value, SErr> {
+        self.deserialize_tuple(len, visitor)
+    }
+    fn deserialize_newtype_struct<V: Visitor<'de>>(self, _: &'static str, visitor: V) -> Result<V::Value, SErr> {
+        visitor.visit_newtype_struct(self)
+    }
+    strict_reject! { deserialize_any deserialize_bool deserialize_i16 deserialize_i32 deserialize_i64 deserialize_u8 deserialize_u16
+        deserialize_u64 deserialize_f32 deserialize_f64 deserialize_char deserialize_str deserialize_string deserialize_bytes
+        deserialize_byte_buf deserialize_option deserialize_unit deserialize_map deserialize_identifier deserialize_ignored_any }
+    fn deserialize_unit_struct<V: Visitor<'de>>(self, _: &'static str, _: V) -> Result<V::Value, SErr> {
+        Err(SErr("strict reader: unsupported request unit_struct".into()))
+    }
+    fn deserialize_struct<V: Visitor<'de>>(self, _: &'static str, _: &'static [&'static str], _: V) -> Result<V::Value, SErr> {
+        Err(SErr("strict reader: unsupported request struct".into()))
+    }
+    fn deserialize_enum<V: Visitor<'de>>(self, _: &'static str, _: &'static [&'static str], _: V) -> Result<V::Value, SErr> {
+        Err(SErr("strict reader: unsupported request enum".into()))
+    }
+    fn is_human_readable(&self) -> bool {
+        false
+    }
+}
+/// the recorded serializer log as the flat stream a length-prefixing binary format would have written
+fn flat_stream(log: &[String]) -> Option<Vec<Flat>> {
+    let mut out = vec![];
+    for t in log {
+        if let Some(n) = t.strip_prefix("seq") {
+            out.push(Flat::Len(n.parse().ok()?));
+        } else if t.starts_with("tup") || t == "end" {
+        } else if let Some(v) = t.strip_prefix('u') {
+            out.push(Flat::U32(u32::from_str_radix(v, 16).ok()?));
+        } else if let Some(v) = t.strip_prefix('i') {
+            out.push(Flat::I8(v.parse().ok()?));
+        } else {
+            return None;
+        }
+    }
+    Some(out)
+}
+/// deserialize with the strict reader; every token must be consumed
+fn strict_read<'de, T: Deserialize<'de>>(log: &[String]) -> Result<T, SErr> {
+    let flat = flat_stream(log).ok_or_else(|| SErr("log is not a flat stream".into()))?;
+    let pos = std::cell::Cell::new(0usize);
+    let v = T::deserialize(Strict { toks: &flat, pos: &pos })?;
+    if pos.get() != flat.len() {
+        return Err(SErr(format!("strict reader: {} of {} tokens consumed", pos.get(), flat.len())));
+    }
+    Ok(v)
+}
+
 fn parse_hint(s: &str, n: usize) -> Option<usize> {
     match s {
         "none" => None,
@@ -283,6 +401,8 @@ pub fn run(op: &str, t: &[&str], v: &[Val], out: &mut Out) -> bool {
                     Some((log, ok)) => {
                         out.push(&format!("t{}", log.join(",")));
                         out.push(if ok { "T" } else { "F" });
+                        // the same bytes read back by a non-self-describing (length-prefixing, untagged) format
+                        out.named("rtb", || DR(strict_read::<BigUint>(&log)));
                     }
                     None => out.push("P"),
                 }
@@ -297,6 +417,7 @@ pub fn run(op: &str, t: &[&str], v: &[Val], out: &mut Out) -> bool {
                     Some((log, ok)) => {
                         out.push(&format!("t{}", log.join(",")));
                         out.push(if ok { "T" } else { "F" });
+                        out.named("rtb", || DR(strict_read::<BigInt>(&log)));
                     }
                     None => out.push("P"),
                 }
@@ -353,6 +474,7 @@ pub fn run(op: &str, t: &[&str], v: &[Val], out: &mut Out) -> bool {
                 Some((log, ok)) => {
                     out.push(&format!("t{}", log.join(",")));
                     out.push(if ok { "T" } else { "F" });
+                    out.named("rtb", || DR(strict_read::<num_bigint::Sign>(&log)));
                 }
                 None => out.push("P"),
             }
